@@ -290,6 +290,12 @@ func parent(d *Driver, tier string) int {
 	if n < 1 {
 		n = 1
 	}
+	// replay artefacts of earlier runs of this property are stale
+	if old, _ := filepath.Glob(filepath.Join(VerifDir, "replays", d.Prop, "*.json")); len(old) > 0 {
+		for _, f := range old {
+			os.Remove(f)
+		}
+	}
 	dir := fmt.Sprintf("/dev/shm/verif-%s-%d", d.Prop, os.Getpid())
 	os.MkdirAll(dir, 0o755)
 	defer os.RemoveAll(dir)
